@@ -198,6 +198,8 @@ def results_from_impl(r):
         return ("err",)
     if "panic" in r:
         return ("panic",)
+    if "huge_branch_vector" in r:
+        return ("huge", r["huge_branch_vector"])
     return ("crash", r)
 
 
@@ -211,4 +213,19 @@ def huge_branch_number(data, limit=1 << 20):
     for m in _BRDA.finditer(data):
         if int(m.group(3)) % (1 << 32) >= limit:
             return True
+    return False
+
+
+def model_unfriendly(data, limit=1 << 12):
+    """inputs on which the Gallina model would build a giant branch vector too (it is faithful): any line that
+    mentions BRDA and carries, after its first number, a decimal token whose u32 value is >= limit; lines are
+    cut at LF only, so fields shifted by corruption are covered as well"""
+    for line in data.split(b"\n"):
+        i = line.find(b"BRDA")
+        if i < 0:
+            continue
+        toks = _re.findall(rb"\d+", line[i:])
+        for t in toks[1:]:
+            if int(t) % (1 << 32) >= limit:
+                return True
     return False
